@@ -1,9 +1,11 @@
 import Pxv.Driver.Body
 import Pxv.Driver.CG
+import Pxv.Driver.Server
 open Pxv.Driver
 
 def main (args : List String) : IO UInt32 := do
   match args with
   | ["body"] => serve Pxv.Body.handle; return 0
   | ["cg"] => serve Pxv.CG.handle; return 0
+  | ["server"] => serve Pxv.Server.handle; return 0
   | _ => IO.eprintln "usage: pxmodel <model>"; return 2
